@@ -13,6 +13,7 @@ from pams.agents import ArbitrageAgent, FCNAgent, MarketMakerAgent, MarketShareF
 from pams.index_market import IndexMarket  # noqa: E402
 from pams.market import Market  # noqa: E402
 from pams.order import LIMIT_ORDER, MARKET_ORDER, Cancel, Order  # noqa: E402
+from pams.simulator import Simulator  # noqa: E402
 
 RULE = ("agent parameter grids x market states (price histories built by real trades, fundamental prices, resting quotes, "
         "index/component price gaps on both sides of the threshold, running flags) x enumerated answers of the agent's PRNG; "
@@ -21,13 +22,14 @@ RULE = ("agent parameter grids x market states (price histories built by real tr
 WIT = ["fcn_buy", "fcn_sell", "fcn_nothing", "fcn_inaccessible", "fcn_clock_below_window", "fcn_mean_reversion_distinct",
        "share_choice_0", "share_choice_1", "share_zero_volume", "mm_quotes", "mm_base_from_market_price", "mm_inaccessible_market_ignored",
        "mm_market_order_on_top", "arb_no_action_within_threshold", "arb_gap_exactly_threshold", "arb_buy_index", "arb_sell_index",
-       "arb_not_running", "arb_two_indices_acted", "arb_component_moved_between_consultations", "test_agent_cases", "fcn_normal_margin_cases", "fcn_on_index_market", "fcn_two_markets_different_clocks", "fcn_zero_or_negative_holdings", "group_member_setups", "well_formed_orders"]
+       "arb_not_running", "arb_two_indices_acted", "arb_component_moved_between_consultations", "test_agent_cases", "fcn_normal_margin_cases", "fcn_on_index_market", "fcn_two_markets_different_clocks", "fcn_zero_or_negative_holdings", "fcn_parameters_reassigned_between_consultations", "group_member_setups", "well_formed_orders"]
 
 
-class Sim:
+class Sim(Simulator):
+    """a REAL simulator object (markets are entered into its name / id tables by the grids themselves)"""
+
     def __init__(self):
-        self.name2market = {}
-        self.id2market = {}
+        super().__init__(prng=random.Random(0))
 
 
 def well_formed(o, agent, wit):
@@ -276,6 +278,51 @@ def fcn_persistent_fn(case, wit):
             hist, fund, wf, wc, wn, ns, g, win, mr, k)
         classes.add(check_fcn_orders(orders, m, p, r, ph, k, win, 0, wit, tag))
         wit.inc("fcn_persistent_cases")
+    return tuple(sorted(classes))
+
+
+def fcn_reassign_cases(tier):
+    """(first parameter set, second parameter set): the agent's public parameters are REASSIGNED between two consultations
+    (a regime switch written by a user)"""
+    inner = [(2.0 ** -7, 2.0, 2, None, 0.125), (0, -2.0, 5, 4, 0.0), (2.0 ** -7, -2.0, 1, 1, 0.5)]
+    for w1 in WEIGHTS:
+        for w2 in WEIGHTS:
+            if w1 == w2:
+                continue
+            for i1 in range(len(inner)):
+                yield w1 + inner[i1] + w2 + inner[(i1 + 1) % len(inner)]
+
+
+def fcn_reassign_fn(case, wit):
+    global _STATES
+    if _STATES is None:
+        _STATES = [(hist, fund, mk_hist_market(0, hist, fund)) for hist, fund in fcn_cases("quick")]
+    states = _STATES[5::17]
+    first, second = case[:8], case[8:]
+    wf, wc, wn, ns, g, win, mr, k = first
+    a = FCNAgent(3, StubRandom(g=g), Sim(), "a")
+    st = {"cashAmount": 100, "assetVolume": 1, "fundamentalWeight": wf, "chartWeight": wc, "noiseWeight": wn,
+          "noiseScale": ns, "timeWindowSize": win, "orderMargin": k}
+    if mr:
+        st["meanReversionTime"] = mr
+    a.setup(st, [0])
+    classes = set()
+    for phase, (wf, wc, wn, ns, g, win, mr, k) in enumerate((first, second, first)):
+        if phase:
+            a.fundamental_weight, a.chart_weight, a.noise_weight = float(wf), float(wc), float(wn)
+            a.noise_scale, a.time_window_size, a.order_margin = float(ns), win, float(k)
+            a.mean_reversion_time = mr if mr else win
+            a.prng = StubRandom(g=g)
+        for hist, fund, m in states:
+            orders = a.submit_orders([m])
+            for o in orders:
+                well_formed(o, a, wit)
+            p, r, ph = fcn_reference(m, fund, wf, wc, wn, ns, g, win, mr)
+            tag = "agent whose parameters were reassigned %d time(s) since its first consultation (first %s, then %s), history %s fundamental %s" % (
+                phase, first, second, hist, fund)
+            classes.add(check_fcn_orders(orders, m, p, r, ph, k, win, 0, wit, tag))
+        if phase:
+            wit.inc("fcn_parameters_reassigned_between_consultations")
     return tuple(sorted(classes))
 
 
@@ -599,13 +646,14 @@ def group_fn(case, wit):
     return (cls, variant)
 
 
-GRIDS = {"group_setup": group_fn, "test_agent": test_agent_fn, "arbitrage_two_indices": arb2_fn, "fcn_long_lived_agent": fcn_persistent_fn, "fcn": fcn_fn, "market_share_fcn": share_fn, "market_maker": mm_fn, "arbitrage": arb_fn}
+GRIDS = {"fcn_parameters_reassigned": fcn_reassign_fn, "group_setup": group_fn, "test_agent": test_agent_fn, "arbitrage_two_indices": arb2_fn, "fcn_long_lived_agent": fcn_persistent_fn, "fcn": fcn_fn, "market_share_fcn": share_fn, "market_maker": mm_fn, "arbitrage": arb_fn}
 
 
 def run(tier, seed):
     res = common.Result("C20", tier, seed)
     run_grid(res, "fcn", list(fcn_cases(tier)), fcn_fn, seed)
     run_grid(res, "fcn_long_lived_agent", list(fcn_persistent_cases(tier)), fcn_persistent_fn, seed)
+    run_grid(res, "fcn_parameters_reassigned", list(fcn_reassign_cases(tier)), fcn_reassign_fn, seed)
     run_grid(res, "market_share_fcn", list(share_cases(tier)), share_fn, seed)
     run_grid(res, "market_maker", list(mm_cases(tier)), mm_fn, seed)
     run_grid(res, "arbitrage", list(arb_cases(tier)), arb_fn, seed)
